@@ -507,6 +507,8 @@ mod imp {
         /// hook b309b16 (optional): the running frame's record matches its function object / its upvalue vector has a live owner
         pub frame_ok: bool,
         pub upowner_ok: bool,
+        /// optional hook: the loop's cached locals are the running frame's record
+        pub locals_ok: bool,
     }
 
     pub fn split(log: &[(u32, u64, u64)]) -> Vec<Instr> {
@@ -515,7 +517,7 @@ mod imp {
         while i < log.len() {
             let (id, a, _b) = log[i];
             if id == verif_sites::SNAP_GRID {
-                let mut ins = Instr { ongrid: a, snap: [0; 9], acc: Vec::new(), complete: false, frame_ok: true, upowner_ok: true };
+                let mut ins = Instr { ongrid: a, snap: [0; 9], acc: Vec::new(), complete: false, frame_ok: true, upowner_ok: true, locals_ok: true };
                 i += 1;
                 // FETCH
                 if i < log.len() && log[i].0 == verif_sites::FETCH {
@@ -539,6 +541,7 @@ mod imp {
                     match log[i].0 {
                         105 => ins.frame_ok = log[i].1 == 1,
                         106 => ins.upowner_ok = log[i].1 == 1,
+                        107 => ins.locals_ok = log[i].1 == 1,
                         id if id >= 100 => {}
                         _ => ins.acc.push(log[i]),
                     }
@@ -623,7 +626,7 @@ mod imp {
         });
         let mut tainted = false;
         let (mut offgrid, mut stale, mut unresolved) = (0u64, 0u64, 0u64);
-        let (mut badframe, mut badup) = (0u64, 0u64);
+        let (mut badframe, mut badup, mut badlocals) = (0u64, 0u64, 0u64);
         let n = ins.len();
         let mut oobs = Vec::new();
         for (k, it) in ins.iter().enumerate() {
@@ -636,6 +639,9 @@ mod imp {
             }
             if !it.upowner_ok {
                 badup += 1;
+            }
+            if !it.locals_ok {
+                badlocals += 1;
             }
             if it.complete {
                 if it.snap[5] == u64::MAX {
@@ -651,7 +657,7 @@ mod imp {
                 }
             }
         }
-        println!("X\t{}\t{}\t{}\t{}\t{}\t{}\t{}\t{}", case, class, n, offgrid, stale, unresolved, badframe, badup);
+        println!("X\t{}\t{}\t{}\t{}\t{}\t{}\t{}\t{}\t{}", case, class, n, offgrid, stale, unresolved, badframe, badup, badlocals);
         for (k, it) in ins.iter().enumerate() {
             if !(k < nfirst || k + 2 >= n) || !it.complete {
                 continue;
@@ -1012,6 +1018,45 @@ mod imp {
                         set_code(&mut main, vec![load_worker, ins(35, 3, 1, 1), ins(21, 4, 3, 0), ins(22, 4, 0, 0)]);
                         run_case(&format!("t{}c{}w{}", op, tramp_consts, worker_closure as u8), &mut vm, &main, gap, budget, nfirst,
                                  &format!("sweep:upvalcall{}-then-call:tramp{}:{}", op, tramp_consts, if worker_closure { "closure" } else { "function" }));
+                    }
+                }
+            }
+            // callees WITHOUT a final Return (the end of the code is an implicit return) called from a closure that drops the
+            // callee, allocates and then uses its own upvalue: the loop must be back on the caller's upvalue vector
+            for callee_closure in [false, true] {
+                for callop in [21u32, 79] {
+                    for big in [false, true] {
+                        for gc in [0u8, 2] {
+                            let mut vm = new_vm();
+                            let mut b = Function::new(Some("B".into()), 0);
+                            b.num_registers = 2;
+                            if callee_closure {
+                                b.upvalue_descriptors.push(UpvalueDescriptor { is_local: false, index: 0 });
+                                set_code(&mut b, vec![ins(36, 0, 0, 0)]);                 // GetUpval r0, u0 ; falls off the end
+                            } else {
+                                set_code(&mut b, vec![ins_imm(1, 0, 5), ins(0, 1, 0, 0)]); // no Return either
+                            }
+                            let mut a = Function::new(Some("A".into()), 0);
+                            a.num_registers = 8;
+                            a.upvalue_descriptors.push(UpvalueDescriptor { is_local: true, index: 0 });
+                            a.constants.push(Value::nested_fn_marker(0));
+                            a.constants.push(Value::int(200_000));
+                            a.nested_functions.push(b);
+                            let mk_b = if callee_closure { ins(35, 1, 0, 1) } else { ins_imm(2, 1, 0) };
+                            set_code(&mut a, vec![
+                                mk_b, ins(callop, 2, 1, 0), ins(3, 1, 0, 0), ins(3, 2, 0, 0),
+                                if big { ins_imm(2, 3, 1) } else { ins_imm(1, 3, 4) }, ins(130, 3, 3, 0),
+                                ins(36, 5, 0, 0), ins(36, 6, 0, 0), ins(22, 5, 0, 0),
+                            ]);
+                            let mut main = Function::new(Some("main".into()), 0);
+                            main.num_registers = 4;
+                            main.constants.push(Value::nested_fn_marker(0));
+                            main.nested_functions.push(a);
+                            set_code(&mut main, vec![ins_imm(1, 0, 111), ins(35, 1, 0, 1), ins(21, 2, 1, 0), ins(22, 2, 0, 0)]);
+                            run_case_gc(&format!("e{}{}{}g{}", callee_closure as u8, callop, big as u8, gc), &mut vm, &main, gap, budget, nfirst,
+                                        &format!("sweep:implicit-return:{}:call{}:{}{}", if callee_closure { "closure" } else { "function" }, callop,
+                                                 if big { "bigalloc" } else { "smallalloc" }, if gc == 2 { ":gc" } else { "" }), gc);
+                        }
                     }
                 }
             }
